@@ -151,3 +151,14 @@ func (c *Cond) Wait(pred func() bool) {
 		simrt.Yield("h:cond.wake")
 	}
 }
+
+// markCompressed asks for body compression of a frame the way callers can: through SetCompress, and —
+// for the empty-bodied READY/OPTIONS that SetCompress leaves alone — by setting the COMPRESSED header
+// flag directly, which is what the library's own server connection does for every outgoing frame once
+// compression is negotiated. STARTUP is never compressed.
+func markCompressed(T *Tape, f *frame.Frame) {
+	f.SetCompress(true)
+	if f.Header.OpCode != primitive.OpCodeStartup && T.Bool("compressflag.direct", 0.5) {
+		f.Header.Flags = f.Header.Flags.Add(primitive.HeaderFlagCompressed)
+	}
+}
